@@ -38,16 +38,81 @@ class FakeSocket:
         self.max_reads_after_eof = max_reads_after_eof
         self.closed = False
         self.timeouts: t.List[t.Any] = []
+        self._out = bytearray()
+        self.send_calls = 0
 
-    # --- socket API used by the client ---
-    def sendall(self, data) -> None:
-        data = bytes(data)
-        self.sent.append(data)
-        for c in self.handler(data) or []:
-            if c:
-                self.chunks.append(bytes(c))
+    # --- socket API (the client may use any of it) ---
+    # What the client writes is handed to the peer when the client starts reading (a request/reply protocol): however
+    # many send()/sendall() calls a PDU was written with, the peer sees the same bytes.
+    def sendall(self, data, *flags) -> None:
+        self._out += bytes(data)
+        self.send_calls += 1
+
+    def send(self, data, *flags) -> int:
+        self.sendall(data)
+        return len(bytes(data))
+
+    def sendmsg(self, buffers, *a) -> int:
+        d = b"".join(bytes(b) for b in buffers)
+        self.sendall(d)
+        return len(d)
+
+    def _flush(self) -> None:
+        if self._out:
+            data, self._out = bytes(self._out), bytearray()
+            self.sent.append(data)
+            for c in self.handler(data) or []:
+                if c:
+                    self.chunks.append(bytes(c))
+
+    def makefile(self, mode="r", buffering=None, **kw):
+        import io
+
+        sock = self
+
+        class _Raw(io.RawIOBase):
+            def readable(self):
+                return "r" in mode
+
+            def writable(self):
+                return "w" in mode
+
+            def readinto(self, b):
+                return sock.recv_into(b)
+
+            def write(self, b):
+                return sock.send(b)
+
+        raw = _Raw()
+        if buffering == 0:
+            return raw
+        if "r" in mode and "w" in mode:
+            return io.BufferedRWPair(raw, raw)
+        return io.BufferedReader(raw) if "r" in mode else io.BufferedWriter(raw)
+
+    def setsockopt(self, *a) -> None:
+        pass
+
+    def gettimeout(self):
+        return self.timeouts[-1] if self.timeouts else None
+
+    def setblocking(self, flag) -> None:
+        self.timeouts.append(None if flag else 0.0)
+
+    def getpeername(self):
+        return ("192.0.2.1", 135)
+
+    def getsockname(self):
+        return ("192.0.2.2", 50000)
+
+    def __enter__(self):
+        return self
+
+    def __exit__(self, *a) -> None:
+        self.close()
 
     def _next(self, n: int) -> bytes:
+        self._flush()
         self.reads += 1
         self.read_sizes.append(n)
         if n == 0:
@@ -78,9 +143,10 @@ class FakeSocket:
         self.timeouts.append(v)
 
     def shutdown(self, how) -> None:
-        pass
+        self._flush()
 
     def close(self) -> None:
+        self._flush()
         self.closed = True
 
 
@@ -90,13 +156,28 @@ class FakeWriter:
         self.closed = False
 
     def write(self, data) -> None:
-        self.stream._on_write(bytes(data))
+        self.stream._out += bytes(data)
+
+    def writelines(self, lines) -> None:
+        for d in lines:
+            self.write(d)
 
     async def drain(self) -> None:
         await asyncio.sleep(0)
 
+    def can_write_eof(self) -> bool:
+        return False
+
+    def is_closing(self) -> bool:
+        return self.closed
+
     def close(self) -> None:
+        self.stream._flush()
         self.closed = True
+
+    @property
+    def transport(self):
+        return self
 
     async def wait_closed(self) -> None:
         return None
@@ -118,6 +199,7 @@ class StallDetectingReader:
         self.reads_after_eof = 0
 
     def _before(self, need: int) -> None:
+        self._s._flush()
         self.reads += 1
         if self._r.at_eof():
             self.reads_after_eof += 1
@@ -147,13 +229,27 @@ class FakeStream:
 
     def __init__(self, handler, eof_after_each_reply: bool = True) -> None:
         self.loop = asyncio.get_event_loop()
-        self.reader = asyncio.StreamReader(limit=2**20)
+        self._out = bytearray()
+        stream = self
+
+        class _Reader(asyncio.StreamReader):
+            # what the client wrote reaches the peer when the client blocks on reading (request/reply protocol)
+            async def _wait_for_data(self, func_name):
+                stream._flush()  # (replies are fed from later loop iterations, never synchronously: waiting is always right)
+                await super()._wait_for_data(func_name)
+
+        self.reader = _Reader(limit=2**20)
         self.writer = FakeWriter(self)
         self.handler = handler
         self.sent: t.List[bytes] = []
         self.eof_after_each_reply = eof_after_each_reply
         self._pending: t.Deque[t.Optional[bytes]] = collections.deque()
         self._scheduled = False
+
+    def _flush(self) -> None:
+        if self._out:
+            data, self._out = bytes(self._out), bytearray()
+            self._on_write(data)
 
     def _on_write(self, data: bytes) -> None:
         self.sent.append(data)
